@@ -402,7 +402,7 @@ def run_config(cfg, res):
         elif c < 0.85:
           off = -r.choice([10, 60]) * (cfg['max'] + r.randint(1, 4))        # beyond the horizon
         elif c < 0.92:
-          off = r.choice([10, 60, 125])                                     # future
+          off = r.choice([10, 60, 125, 125, 3600, 86400 * 400])             # future: a little, and a sender whose clock is far ahead
         else:
           off = -r.choice([0.5, 10.25])                                     # fractional
         evs.append(('arrive', nm, off, r.randrange(-4000, 4000) * 0.25))
